@@ -1187,7 +1187,8 @@ def main(ctx):
         # anything left: shrink generically (bounded) and report as it is
         for (hist, i, kind, detail) in rest[:4]:
             small = ddmin(ctx, hist, i, kind)
-            sig = signature_of(small, cfgq)
+            sres = run_impl(ctx, [small], tag='ddmin_sig')[0]
+            sig = signature_of(small, cfgq, sres if 'ops' in sres else None)
             key = json.dumps(sig, sort_keys=True)
             found.setdefault(key, (sig, small, detail, kind))
 
@@ -1309,7 +1310,7 @@ def replay(path):
     try:
         cfg, _ = c19_caches.translate(str(lib.REPO))
         cfgq = {q['name']: q for q in cfg['queries']}
-        print('model: signature of this history =', signature_of(hist, cfgq))
+        print('model: signature of this history =', signature_of(hist, cfgq, res if 'ops' in res else None))
     except c19_caches.TranslateError as e:
         print('translator failed closed:', e)
     print('property', 'VIOLATED' if ps else 'holds', 'on this history', [(i, k) for i, k, _ in ps])
